@@ -101,7 +101,10 @@ class BeartypeValidatorUnaryABC(BeartypeValidator, metaclass=ABCMeta):
             validator_repr='(',
             indent_level_outer=indent_level_outer,
             indent_level_inner=indent_level_inner,
-            is_obj_valid=self.is_valid(obj),
+            is_obj_valid=self._is_valid_unless_shortcircuited_raises(
+                obj=obj,
+                is_shortcircuited=kwargs.get('is_shortcircuited', False),
+            ),
         )
 
         # Line diagnosing this object against this non-negated child validator
